@@ -12,7 +12,7 @@ from ..pyfacts import dotted, guards_at, walk_guarded, calls_in
 from ..pai import as_sstr as pai_as
 
 META = {
-    "explanation": "The required lexical class table, decided exhaustively: for every (object type, keyword) slot of the 20 schema files, every value class the slot admits (enum word of unknown letter case, free string, hex colour, attribute binding, parenthesised / NOT expression, /regex/, 'regex'i, {list}, int, float, bool, number / binding / hex lists, empty auto-created dict) and both quote characters, PAI evaluates PrettyPrinter.process_attribute (get_attribute_properties -> format_value -> check_options_list / Quoter) on an opaque value of the class and compares the emitted template with the class the property demands: free strings Q..Q with the value untouched, enum words bare upper-case, numbers and booleans bare, bindings / expressions / regexes / list expressions verbatim, lists space-joined with strings quoted and bindings bare, empty dict refused (M1). Special writers: CONFIG, repeated keys, key/value blocks and PROJECTION quote their strings (M2). Hidden __keys__ never reach the output: _format / process_dict / compute_max_key_length are evaluated on dictionaries that carry hidden keys with recognisable values (H1). Dispatch completeness: the elif chain of _format covers every special writer the grammar has before the generic attribute writer (D1).",
+    "explanation": "The required lexical class table, decided exhaustively: for every (object type, keyword) slot of the 20 schema files, every value class the slot admits (enum word of unknown letter case, free string, hex colour, attribute binding, parenthesised / NOT expression, /regex/, 'regex'i, {list}, int, float, bool, number / binding / hex lists, empty auto-created dict) and both quote characters, PAI evaluates PrettyPrinter.process_attribute (get_attribute_properties -> format_value -> check_options_list / Quoter) on an opaque value of the class and compares the emitted template with the class the property demands: free strings Q..Q with the value untouched, enum words bare upper-case, numbers and booleans bare, bindings / expressions / regexes / list expressions verbatim, lists space-joined with strings quoted and bindings bare, empty dict refused (M1). Special writers: CONFIG, repeated keys, key/value blocks and PROJECTION quote their strings (M2). Hidden __keys__ never reach the output: _format / process_dict / compute_max_key_length are evaluated on dictionaries that carry hidden keys with recognisable values (H1). Dispatch completeness: _format is evaluated on a representative of every keyword that needs its own writer (the grammar's keyword-introduced blocks, an object list, a singleton block, a repeated keyword, a same-list-printed-twice probe M4) and the lines must have the shape the grammar reads back, never the generic KEY value line (D1).",
     "level_text": "The quoting decision is a function of (type, keyword, value shape) looked up in the schemas: the whole finite domain is enumerated and each cell is decided for all strings of the shape at once. Edit histories only change which dictionary is printed; the table is universal over dictionaries built from these classes.",
     "level_note": "Trusted: schema expansion equals jsonref's (checked separately by the $ref lint in C07). Strings containing the output quote character, and expression-capable slots holding a string that itself looks like an expression, are excluded as in the property. What an independent reader accepts beyond the lexical class is not examined.",
     "technique": "abstract interpretation (PAI) of the printer's value formatting over the exhaustive slot x value-class x quote table",
